@@ -375,38 +375,56 @@ pub fn summarize(events: &[Ev]) -> String {
     s
 }
 
-/// Abstract outcome used for the distinct-class count (no content bytes, only shape).
-pub fn outcome_shape(obs: &Observation) -> String {
-    let mut s = String::new();
+/// Abstract outcome used for the distinct-class count (no content bytes, only shape): per field
+/// whether data was delivered and how it ended, how the Multipart stream ended, the final state.
+pub fn outcome_hash(obs: &Observation) -> u64 {
+    let mut acc: u64 = 0xcbf29ce484222325;
+    let mut byte = |b: u8| {
+        acc ^= b as u64;
+        acc = acc.wrapping_mul(0x100000001b3);
+    };
+    let mut u = |x: u64| {
+        for b in x.to_le_bytes() {
+            byte(b);
+        }
+    };
     let mut len = 0usize;
+    let end = |e: &End, u: &mut dyn FnMut(u64)| match e {
+        End::Clean => u(1),
+        End::Err(x) => {
+            u(2);
+            for b in x.bytes() {
+                u(b as u64);
+            }
+        }
+        End::Dropped => u(3),
+        End::Parked => u(4),
+    };
     for e in &obs.events {
         match e {
             Ev::Field { idx, .. } => {
-                s.push_str(&format!("F{idx};"));
+                u(10 + *idx as u64);
                 len = 0;
             }
             Ev::Chunk { bytes, .. } => len += bytes.len(),
-            Ev::FieldEnd { how, .. } => s.push_str(&format!("E{}:{};", if len == 0 { "0" } else { "n" }, end_kind(how))),
-            Ev::MpEnd { how } => s.push_str(&format!("M:{};", end_kind(how))),
+            Ev::FieldEnd { how, .. } => {
+                u(if len == 0 { 20 } else { 21 });
+                end(how, &mut u);
+            }
+            Ev::MpEnd { how } => {
+                u(30);
+                end(how, &mut u);
+            }
         }
     }
-    s.push_str(match &obs.fin {
-        Final::Completed => "done",
-        Final::Hang { probe_progress: true, .. } => "lostwake",
-        Final::Hang { .. } => "hang",
-        Final::Spin => "spin",
-        Final::Panic { .. } => "panic",
+    u(match &obs.fin {
+        Final::Completed => 40,
+        Final::Hang { probe_progress: true, .. } => 41,
+        Final::Hang { .. } => 42,
+        Final::Spin => 43,
+        Final::Panic { .. } => 44,
     });
-    s
-}
-
-fn end_kind(e: &End) -> String {
-    match e {
-        End::Clean => "ok".into(),
-        End::Err(x) => format!("err({x})"),
-        End::Dropped => "dropped".into(),
-        End::Parked => "parked".into(),
-    }
+    acc
 }
 
 /// Preconditions of the already-known scanner defects that are present in this case. Used only
